@@ -477,6 +477,11 @@ def main(argv):
                         model_lines.append(l)
                         model_expect.append((("SimpleCleaningFilter --scripts " + ",".join(nm), l), r))
 
+        # ------------------------------------------------------------ memory safety (thorough): the library/class entry points under ASan/UBSan
+        if thorough and drv is not None and not c.violations:
+            asan_lines(c, "hx_filters", ["W " + " ".join(hexd(p) for p in probe), "S " + " ".join(hexd(p) for p in probe)] + klines[:200], "(IsUTF8, StripSpaces, MurmurHashNative on exact-size buffers)")
+            asan_lines(c, "hx_cleaning", fl[:400], "(SimpleCleaningFilter on exact-size buffers)")
+
         # ------------------------------------------------------------ run the models
         if drv is not None:
             rc, mo, e = run_lines(drv, model_lines, timeout=1200)
